@@ -230,6 +230,10 @@ impl SemaphoreState {
                         !self.is_fair,
                         "Fair semaphores should always be ready when notified"
                     );
+                    // This waiter consumed its notification without making
+                    // progress. Other waiters might fit into the remaining
+                    // permits and must get notified instead.
+                    self.wakeup_waiters();
                     // Add to queue
                     wait_node.task = Some(cx.waker().clone());
                     wait_node.state = PollState::Waiting;
